@@ -1,6 +1,7 @@
 import Srctools.Proofs.C16
 import Srctools.Proofs.C16Bin
 import Srctools.Proofs.C16Lazy
+import Srctools.Proofs.C16KVFinal
 import Srctools.Gen.Tok
 import Srctools.Gen.Fgdw
 /-!
@@ -288,6 +289,220 @@ theorem C16_lazy_full_load (qs : List Name) :
   exact ⟨(loadAll_after_queries wf p qs).1, h.2.1, h.1⟩
 
 end LazyDB
+
+/-! ## (i') long strings without custom syntax (`extended=False`): the weaker law
+
+Without custom syntax `_fgd_escape` is lossy (`"` → `''`, only line feeds are escaped, backslashes are
+written raw), so the text cannot come back in general.  What does hold for every text whose escape
+does not end in a dangling backslash (`plainOK`): splitting is transparent — the pieces are read as
+`STRING d₁ PLUS NEWLINE STRING d₂ …` and `d₁ ++ d₂ ++ …` is exactly what the tokenizer reads from the
+UNSPLIT `"_fgd_escape(text)"`. -/
+section PlainMode
+open C16.KV
+
+theorem C16_longstring_plain (T : Tables) (hT : kvTablesOK T = true) (o : Opts) (ho : optsOK o = true)
+    (cfg : LongCfg) (hc : cfgOK cfg = true) (he : cfg.emptyQuotes = true) (fold : Char → List Char)
+    (indent : List Char) (hind : ∀ c ∈ indent, c = ' ' ∨ c = '\t') (s : List Char) (hs : plainOK s = true) :
+    ∃ ds : List (List Char), ds ≠ [] ∧ ds.flatten = decodeUnits T (plainEscape s) ∧
+      Reads T (plainEscape s) (decodeUnits T (plainEscape s)) ∧
+      (run T o fold (writeLongString cfg T false indent s)).err = none ∧
+      tksOf (run T o fold (writeLongString cfg T false indent s)) = chainToks ds ++ [tkEof] := by
+  let c : ExpCfg := { long := cfg, T := T, tt := ⟨[], [], [], 0, 0, 0, 0⟩, ext := false, label := false }
+  obtain ⟨h1, h2, h3, h4⟩ := ls_plain T cfg hc he s hs
+  have hls : LsOK c false s := ⟨h1, fun sec hsec => (h2 sec hsec).1⟩
+  have hlex := lex_wls (fold := fold) (kvTables hT) (optsFacts ho) c rfl false indent s hind hls
+  obtain ⟨hr, herr⟩ := run_of_lexes hlex trivial
+  refine ⟨lsPieces c false s, ?_, h3, h4, herr, hr⟩
+  intro h0
+  exact h1 (by simpa [lsPieces] using h0)
+
+/-- For text without backslash and carriage return the image is the documented one: every `"` has
+become `''`, nothing else changed. -/
+theorem C16_longstring_plain_simple (T : Tables) (hn : T.unescape 'n' = some '\n') (s : List Char)
+    (hb : '\\' ∉ s) (hr : '\r' ∉ s) :
+    plainOK s = true ∧ decodeUnits T (plainEscape s) = plainQuote s := by
+  obtain ⟨h1, h2⟩ := plain_simple T hn s hb hr
+  exact ⟨by simp [plainOK, h2], h1⟩
+
+/-- `_partial`: the excluded class is real — a text ending in a backslash is written as `"…\"`, the
+closing quote is swallowed (tokenizer error "Unterminated string"). -/
+theorem C16_longstring_plain_excluded :
+    plainOK ['a', '\\'] = false ∧
+    (run Gen.Tok.tables fgdOpts (fun c => [c])
+      (writeLongString Gen.Fgdw.longCfg Gen.Tok.tables false ['\t'] ['a', '\\'])).err ≠ none := by
+  decide +kernel
+
+end PlainMode
+
+/-! ## (iv) keyvalue and I/O definition lines of the text syntax
+
+`exportKV`/`parseKV`, `exportIO`/`parseIO`, `exportBody`/`parseBody` (Model/C16KV.lean) model
+`KVDef.export` ↔ `KVDef._parse`, `IODef.export` ↔ `IODef._parse` and the keyvalue / input / output part
+of an entity body.  `Env` = facts about tables, tokenizer options, `_write_longstring` shape and the
+parser's string functions, with custom syntax on; `KvGood`/`IoGood` = explicit decidable conditions on
+the record (Proofs/C16KVFinal.lean).  `normKV` (Proofs/C16KVParse.lean) is the documented normal form. -/
+section TextLines
+open C16.KV
+variable {T : Tables} {o : Opts} {P : ParseCfg} {c : ExpCfg}
+
+/-- **Keyvalue line.** `parseKV (tokens (exportKV k)) = ok (norm k)`: the exported line tokenizes without
+error, starts with the name token, and the parser returns the tags and `normKV k`, leaving only the end
+of input (preceded, for choices / spawnflags, by the line feed after `]`). -/
+theorem C16_kvdef_roundtrip (E : Env T o P c) (fold : Char → List Char) {tags : List Str} {k : KVRec}
+    (G : KvGood T P c tags k) :
+    (run T o fold (exportKV c tags k)).err = none ∧
+    (tksOf (run T o fold (exportKV c tags k))).head? = some (.string, k.name) ∧
+    parseKV P k.name (tksOf (run T o fold (exportKV c tags k))).tail
+      = .ok ((tags, normKV P c k), kvRest c k [tkEof]) :=
+  kvdef_roundtrip E fold G
+
+/-- The normal form, field by field: name, type, flags, description and display name come back
+unchanged (spawnflags get their name as display name), and so does the default of every
+non-boolean type. -/
+theorem C16_kvdef_norm_fields (E : Env T o P c) (k : KVRec) :
+    (normKV P c k).name = k.name ∧ (normKV P c k).typ = k.typ ∧
+    (normKV P c k).readonly = k.readonly ∧ (normKV P c k).reportable = k.reportable ∧
+    (normKV P c k).desc = k.desc ∧
+    (normKV P c k).disp = (if k.typ = c.tt.spawnflags then k.name else k.disp) ∧
+    (k.typ ≠ c.tt.bool → (normKV P c k).default = k.default) :=
+  normKV_fields E k
+
+/-- For every type other than choices / spawnflags / boolean the keyvalue is read back IDENTICALLY. -/
+theorem C16_kvdef_roundtrip_identity (E : Env T o P c) (fold : Char → List Char) {tags : List Str}
+    {k : KVRec} (G : KvGood T P c tags k) (h1 : k.typ ≠ c.tt.spawnflags) (h2 : k.typ ≠ c.tt.choices)
+    (h3 : k.typ ≠ c.tt.bool) (hv : k.vals = .none) :
+    parseKV P k.name (tksOf (run T o fold (exportKV c tags k))).tail = .ok ((tags, k), [tkEof]) := by
+  have h := (kvdef_roundtrip E fold G).2.2
+  rw [normKV_id E h1 h2 h3 hv] at h
+  simpa [kvRest, h1, h2] using h
+
+/-- **Input / output line.** -/
+theorem C16_iodef_roundtrip (E : Env T o P c) (fold : Char → List Char) {kw : Str}
+    (hkw : kw = sInput ∨ kw = sOutput) {tags : List Str} {io : IORec} (G : IoGood T P c tags io) :
+    (run T o fold (exportIO c kw tags io)).err = none ∧
+    (tksOf (run T o fold (exportIO c kw tags io))).head? = some (.string, kw) ∧
+    parseIO P (tksOf (run T o fold (exportIO c kw tags io))).tail
+      = .ok ((tags, normIO P c io), [tkEof]) ∧
+    (normIO P c io).name = io.name ∧ (normIO P c io).desc = io.desc := by
+  obtain ⟨h1, h2, h3⟩ := iodef_roundtrip E fold hkw G
+  exact ⟨h1, h2, h3, (normIO_desc E io).2, (normIO_desc E io).1⟩
+
+/-- **Entity body (partial: keyvalues, inputs, outputs; no `@resources`, no snippets).** The text
+`EntityDef.export` writes between `[` and `]` is parsed back by the body loop of `EntityDef.parse` as the
+list of normal forms, keyvalues first, then inputs, then outputs. -/
+theorem C16_entity_body_partial (E : Env T o P c) (fold : Char → List Char) {items : List Item}
+    (hgood : ∀ it ∈ items, match it with
+      | .kv tags k => KvGood T P c tags k ∧ P.foldStr k.name ≠ sInput ∧ P.foldStr k.name ≠ sOutput ∧
+          P.foldStr k.name ≠ sResources
+      | .inp tags io => IoGood T P c tags io
+      | .out tags io => IoGood T P c tags io)
+    (hin : P.foldStr sInput = sInput) (hout : P.foldStr sOutput = sOutput) :
+    (run T o fold (exportBody c items)).err = none ∧
+    (let ts := tksOf (run T o fold (exportBody c items))
+     parseBody P (ts.length + 1) ts [] = .ok ((bodyOrder items).map (normItem P c), [tkNl, tkEof])) :=
+  entity_body_roundtrip E fold hgood hin hout
+
+/-- The excluded class is real (open finding `spawnflags-default-desc`): a spawnflags keyvalue WITH a
+description satisfies every other hypothesis, yet the parser returns the description as the default. -/
+theorem C16_kvdef_spawnflags_desc_garbled :
+    pxSfDesc.typ = pxC.tt.spawnflags ∧ pxSfDesc.desc = ['h', 'i'] ∧
+    KvParseOK pxP pxC pxNoTags pxSfNoDesc ∧
+    parseKV pxP pxSfDesc.name ((kvToks pxC pxNoTags pxSfDesc).tail ++ [tkEof])
+      = .ok ((pxNoTags, pxSfGarbled), [tkNl, tkEof]) ∧
+    pxSfGarbled.default = pxSfDesc.desc ∧ pxSfGarbled ≠ normKV pxP pxC pxSfDesc := by
+  obtain ⟨h1, h2, h3, h4, h5, _, _, _, h9⟩ := parse_kv_spawnflags_desc_garbled
+  exact ⟨h1, h2, h3, h4, h5, h9⟩
+
+/-- Export configuration / parser of the CURRENT source (custom syntax on; `casefold`/`upper` act as the
+identity on the text that is written: value-type names, keywords and upper-case tags). -/
+def curCfg (label : Bool) : ExpCfg :=
+  { long := Gen.Fgdw.longCfg, T := Gen.Tok.tables, tt := Gen.Fgdw.typeTab, ext := true, label := label }
+def curP : ParseCfg := { tt := Gen.Fgdw.typeTab, fold := fun c => [c], up := fun c => [c] }
+
+/-- OBLIGATION on the current source: tables, tokenizer options, long-string shape, and for EVERY value
+type: the text written for it contains no parenthesis / surrounding blank / leading `*` and
+`VALUE_TYPE_LOOKUP` maps it back to the same type; the I/O text of every type is known to the parser. -/
+theorem C16_kv_gen_ok :
+    kvTablesOK Gen.Tok.tables = true ∧ optsOK Gen.Fgdw.parseOpts = true ∧
+    Gen.Tok.tables.unescape 'n' = some '\n' ∧
+    (∀ label, CfgParseOK curP (curCfg label)) ∧
+    ((List.range Gen.Fgdw.typeTab.values.length).all fun i =>
+        decide (TypeParseOK curP (curCfg true) i) &&
+        !(typeText Gen.Fgdw.typeTab i).contains '(' && !(typeText Gen.Fgdw.typeTab i).contains ')' &&
+        (ioLookup curP (Gen.Fgdw.typeTab.ioText.getD i [])).isSome &&
+        !(Gen.Fgdw.typeTab.ioText.getD i []).contains '(' && !(Gen.Fgdw.typeTab.ioText.getD i []).contains ')') = true ∧
+    Gen.Fgdw.typeTab.ioText.length = Gen.Fgdw.typeTab.values.length := by
+  refine ⟨by decide +kernel, by decide +kernel, by decide +kernel, ?_, by decide +kernel, by decide +kernel⟩
+  intro label
+  cases label <;> decide +kernel
+
+/-- The environment of the current source. -/
+theorem C16_env_current (label : Bool) : Env Gen.Tok.tables Gen.Fgdw.parseOpts curP (curCfg label) where
+  hT := rfl
+  tables := C16_kv_gen_ok.1
+  opts := C16_kv_gen_ok.2.1
+  cfg := C16_gen_ok.1
+  empty := C16_gen_ok.2.1
+  ext := rfl
+  cfgP := C16_kv_gen_ok.2.2.2.1 label
+
+/-- The keyvalue-line round trip at the tables, options and constants of the current source. -/
+theorem C16_kvdef_roundtrip_current (label : Bool) (fold : Char → List Char) {tags : List Str} {k : KVRec}
+    (G : KvGood Gen.Tok.tables curP (curCfg label) tags k) :
+    parseKV curP k.name (tksOf (run Gen.Tok.tables Gen.Fgdw.parseOpts fold (exportKV (curCfg label) tags k))).tail
+      = .ok ((tags, normKV curP (curCfg label) k), kvRest (curCfg label) k [tkEof]) :=
+  (kvdef_roundtrip (C16_env_current label) fold G).2.2
+
+/-- Non-vacuity: a tagged `studio` keyvalue with a quote in its display name, a choices keyvalue and a
+spawnflags keyvalue satisfy `KvGood` at the current source. -/
+example : KvGood Gen.Tok.tables curP (curCfg true) [['H', 'L', '2'], ['+', 'E', 'P', '1']]
+    { name := ['m', 'o', 'd', 'e', 'l'], typ := 23, disp := ['W', '"', 'M'], default := ['a', '.', 'm', 'd', 'l'],
+      desc := [], vals := .none, readonly := true, reportable := false } where
+  name := by decide +kernel
+  tagsL := by unfold TagsOK; decide +kernel
+  tagsP := by decide +kernel
+  typ := by decide +kernel
+  typ1 := by decide +kernel
+  typ2 := by decide +kernel
+  sf := by decide +kernel
+  flags := by intro h; exact absurd h (by decide +kernel)
+  choices := by intro h; exact absurd h (by decide +kernel)
+
+example : KvGood Gen.Tok.tables curP (curCfg true) []
+    { name := ['k'], typ := Gen.Fgdw.typeTab.choices, disp := [], default := ['0'], desc := ['d'],
+      vals := .choices [⟨['+', '1'], ['a', '"', 'b'], [['T', 'F', '2']]⟩], readonly := false, reportable := true } where
+  name := by decide +kernel
+  tagsL := by unfold TagsOK; decide +kernel
+  tagsP := by decide +kernel
+  typ := by decide +kernel
+  typ1 := by decide +kernel
+  typ2 := by decide +kernel
+  sf := by decide +kernel
+  flags := by intro h; exact absurd h (by decide +kernel)
+  choices := by
+    intro _ ch hch
+    simp only [kvChoicesOf, List.mem_singleton] at hch
+    subst hch
+    exact ⟨by decide +kernel, by unfold TagsOK; decide +kernel, by decide +kernel⟩
+
+example : KvGood Gen.Tok.tables curP (curCfg true) []
+    { name := ['s', 'f'], typ := Gen.Fgdw.typeTab.spawnflags, disp := ['s', 'f'], default := [], desc := [],
+      vals := .flags [⟨4096, ['o', 'n'], true, []⟩], readonly := false, reportable := false } where
+  name := by decide +kernel
+  tagsL := by unfold TagsOK; decide +kernel
+  tagsP := by decide +kernel
+  typ := by decide +kernel
+  typ1 := by decide +kernel
+  typ2 := by decide +kernel
+  sf := by decide +kernel
+  flags := by
+    intro _ f hf
+    simp only [kvFlagsOf, List.mem_singleton] at hf
+    subst hf
+    exact ⟨by unfold TagsOK; decide +kernel, by decide +kernel, by decide +kernel, by decide +kernel⟩
+  choices := by intro h; exact absurd h (by decide +kernel)
+
+end TextLines
 
 /-- Non-vacuity: a database with an alias chain across blocks and a cycle is well formed. -/
 example : C16.Lazy.WF C16.Lazy.exS := C16.Lazy.exS_wf
